@@ -11,6 +11,7 @@ package main
 //	    sits in NewTransport ("must hold the field unmodified"), one or two layers earlier.
 
 import (
+	"fmt"
 	"go/token"
 	"go/types"
 	"strings"
@@ -22,127 +23,127 @@ func init() {
 	const tr = "transport/transport.go"
 	const dialerOld = "\t\tDial: (&net.Dialer{\n\t\t\tTimeout:   cfg.Proxy.DialTimeout,\n\t\t\tKeepAlive: cfg.Proxy.KeepAliveTimeout,\n\t\t}).Dial,\n"
 	const retOld = "\treturn &http.Transport{\n"
-	addRound4("C19", "(O1) in every http.Transport that NewTransport builds and in every net.Dialer it dials through, no other setting overrides a configured limit: Dialer.KeepAliveConfig can only be enabled when its Idle holds Proxy.KeepAliveTimeout like Dialer.KeepAlive (package net ignores KeepAlive as soon as KeepAliveConfig.Enable is true and then probes after Idle, 15s when zero); Dialer.Deadline is not set; Transport.DisableKeepAlives stays false and Transport.MaxIdleConns stays 0 (either makes proxy.maxconn / proxy.idleconntimeout moot); DialTLS / DialTLSContext, when set, dial through a net.Dialer that carries the configured dial and keep-alive timeouts; a hand-written dial function does not re-tune keep-alive on the connection with anything but Proxy.KeepAliveTimeout.", runC19O1,
-		mutant{Name: "keep-alive probe tuning enabled without Idle (seed 7, inline)", File: tr, Expect: "C19.O1",
+	addRound4("C19", "(O1) in every http.Transport that NewTransport builds and in every net.Dialer it dials through, no other setting overrides a configured limit: Dialer.KeepAliveConfig can only be enabled when its Idle holds Proxy.KeepAliveTimeout like Dialer.KeepAlive (package net ignores KeepAlive as soon as KeepAliveConfig.Enable is true and then probes after Idle, 15s when zero); Dialer.Deadline is not set; Transport.DisableKeepAlives stays false and Transport.MaxIdleConns stays 0 (either makes proxy.maxconn / proxy.idleconntimeout moot); DialTLS / DialTLSContext, when set, dial through a net.Dialer that carries the configured dial and keep-alive timeouts; a hand-written dial function does not re-tune keep-alive on the connection with anything but Proxy.KeepAliveTimeout.", runC19O1, c19devFilter([]mutant{
+		{Name: "keep-alive probe tuning enabled without Idle (seed 7, inline)", File: tr, Expect: "C19.O1",
 			Old:  "\t\t\tKeepAlive: cfg.Proxy.KeepAliveTimeout,\n",
 			New:  "\t\t\tKeepAlive: cfg.Proxy.KeepAliveTimeout,\n\t\t\tKeepAliveConfig: net.KeepAliveConfig{\n\t\t\t\tEnable:   cfg.Proxy.KeepAliveTimeout >= 0,\n\t\t\t\tInterval: 5 * time.Second,\n\t\t\t\tCount:    3,\n\t\t\t},\n",
 			More: []repl{{"import (\n", "import (\n\t\"time\"\n"}}},
-		mutant{Name: "benign: keep-alive probe tuning with Idle = the configured keep-alive timeout", File: tr, Expect: "",
+		{Name: "benign: keep-alive probe tuning with Idle = the configured keep-alive timeout", File: tr, Expect: "",
 			Old:  "\t\t\tKeepAlive: cfg.Proxy.KeepAliveTimeout,\n",
 			New:  "\t\t\tKeepAlive: cfg.Proxy.KeepAliveTimeout,\n\t\t\tKeepAliveConfig: net.KeepAliveConfig{\n\t\t\t\tEnable:   cfg.Proxy.KeepAliveTimeout >= 0,\n\t\t\t\tIdle:     cfg.Proxy.KeepAliveTimeout,\n\t\t\t\tInterval: 5 * time.Second,\n\t\t\t\tCount:    3,\n\t\t\t},\n",
 			More: []repl{{"import (\n", "import (\n\t\"time\"\n"}}},
-		mutant{Name: "benign: probe interval and count set, KeepAliveConfig not enabled", File: tr, Expect: "",
+		{Name: "benign: probe interval and count set, KeepAliveConfig not enabled", File: tr, Expect: "",
 			Old:  "\t\t\tKeepAlive: cfg.Proxy.KeepAliveTimeout,\n",
 			New:  "\t\t\tKeepAlive: cfg.Proxy.KeepAliveTimeout,\n\t\t\tKeepAliveConfig: net.KeepAliveConfig{Interval: 5 * time.Second, Count: 3},\n",
 			More: []repl{{"import (\n", "import (\n\t\"time\"\n"}}},
-		mutant{Name: "KeepAliveConfig built in a local and assigned, Idle a constant", File: tr, Expect: "C19.O1",
+		{Name: "KeepAliveConfig built in a local and assigned, Idle a constant", File: tr, Expect: "C19.O1",
 			Old: dialerOld, New: "\t\tDial:                  newDialer().Dial,\n",
 			More: []repl{
 				{"import (\n", "import (\n\t\"time\"\n"},
 				{"func SetConfig(", "func newDialer() *net.Dialer {\n\td := &net.Dialer{Timeout: cfg.Proxy.DialTimeout, KeepAlive: cfg.Proxy.KeepAliveTimeout}\n\tkc := net.KeepAliveConfig{Enable: true, Idle: 30 * time.Second}\n\tkc.Count = 3\n\td.KeepAliveConfig = kc\n\treturn d\n}\n\nfunc SetConfig("},
 			}},
-		mutant{Name: "benign: KeepAliveConfig built in a local and assigned, Idle from the configuration", File: tr, Expect: "",
+		{Name: "benign: KeepAliveConfig built in a local and assigned, Idle from the configuration", File: tr, Expect: "",
 			Old: dialerOld, New: "\t\tDial:                  newDialer().Dial,\n",
 			More: []repl{
 				{"func SetConfig(", "func newDialer() *net.Dialer {\n\td := &net.Dialer{Timeout: cfg.Proxy.DialTimeout, KeepAlive: cfg.Proxy.KeepAliveTimeout}\n\tkc := net.KeepAliveConfig{Enable: true, Idle: cfg.Proxy.KeepAliveTimeout}\n\tkc.Count = 3\n\td.KeepAliveConfig = kc\n\treturn d\n}\n\nfunc SetConfig("},
 			}},
-		mutant{Name: "helper switches KeepAliveConfig on through a pointer to the dialer", File: tr, Expect: "C19.O1",
+		{Name: "helper switches KeepAliveConfig on through a pointer to the dialer", File: tr, Expect: "C19.O1",
 			Old: dialerOld, New: "\t\tDial:                  tuned(&net.Dialer{Timeout: cfg.Proxy.DialTimeout, KeepAlive: cfg.Proxy.KeepAliveTimeout}).Dial,\n",
 			More: []repl{
 				{"func SetConfig(", "func tuned(d *net.Dialer) *net.Dialer {\n\td.KeepAliveConfig.Enable = true\n\td.KeepAliveConfig.Count = 3\n\treturn d\n}\n\nfunc SetConfig("},
 			}},
-		mutant{Name: "KeepAliveConfig.Idle holds the dial timeout", File: tr, Expect: "C19.O1",
+		{Name: "KeepAliveConfig.Idle holds the dial timeout", File: tr, Expect: "C19.O1",
 			Old: "\t\t\tKeepAlive: cfg.Proxy.KeepAliveTimeout,\n",
 			New: "\t\t\tKeepAlive: cfg.Proxy.KeepAliveTimeout,\n\t\t\tKeepAliveConfig: net.KeepAliveConfig{Enable: true, Idle: cfg.Proxy.DialTimeout},\n"},
-		mutant{Name: "dial closure re-tunes the keep-alive period of the connection", File: tr, Expect: "C19.O1",
+		{Name: "dial closure re-tunes the keep-alive period of the connection", File: tr, Expect: "C19.O1",
 			Old: dialerOld,
 			New: "\t\tDial: func(network, addr string) (net.Conn, error) {\n\t\t\tconn, err := d.Dial(network, addr)\n\t\t\tif tc, ok := conn.(*net.TCPConn); ok {\n\t\t\t\ttc.SetKeepAlivePeriod(3 * time.Minute)\n\t\t\t}\n\t\t\treturn conn, err\n\t\t},\n",
 			More: []repl{
 				{"import (\n", "import (\n\t\"time\"\n"},
 				{retOld, "\td := &net.Dialer{Timeout: cfg.Proxy.DialTimeout, KeepAlive: cfg.Proxy.KeepAliveTimeout}\n" + retOld},
 			}},
-		mutant{Name: "benign: dial closure sets the configured keep-alive period on the connection", File: tr, Expect: "",
+		{Name: "benign: dial closure sets the configured keep-alive period on the connection", File: tr, Expect: "",
 			Old: dialerOld,
 			New: "\t\tDial: func(network, addr string) (net.Conn, error) {\n\t\t\tconn, err := d.Dial(network, addr)\n\t\t\tif tc, ok := conn.(*net.TCPConn); ok && cfg.Proxy.KeepAliveTimeout > 0 {\n\t\t\t\ttc.SetKeepAlivePeriod(cfg.Proxy.KeepAliveTimeout)\n\t\t\t}\n\t\t\treturn conn, err\n\t\t},\n",
 			More: []repl{
 				{retOld, "\td := &net.Dialer{Timeout: cfg.Proxy.DialTimeout, KeepAlive: cfg.Proxy.KeepAliveTimeout}\n" + retOld},
 			}},
-		mutant{Name: "dial closure switches keep-alive off on the connection", File: tr, Expect: "C19.O1",
+		{Name: "dial closure switches keep-alive off on the connection", File: tr, Expect: "C19.O1",
 			Old: dialerOld,
 			New: "\t\tDial: func(network, addr string) (net.Conn, error) {\n\t\t\tconn, err := d.Dial(network, addr)\n\t\t\tif tc, ok := conn.(*net.TCPConn); ok {\n\t\t\t\ttc.SetKeepAlive(false)\n\t\t\t}\n\t\t\treturn conn, err\n\t\t},\n",
 			More: []repl{
 				{retOld, "\td := &net.Dialer{Timeout: cfg.Proxy.DialTimeout, KeepAlive: cfg.Proxy.KeepAliveTimeout}\n" + retOld},
 			}},
-		mutant{Name: "absolute dial deadline on the dialer", File: tr, Expect: "C19.O1",
+		{Name: "absolute dial deadline on the dialer", File: tr, Expect: "C19.O1",
 			Old:  "\t\t\tKeepAlive: cfg.Proxy.KeepAliveTimeout,\n",
 			New:  "\t\t\tKeepAlive: cfg.Proxy.KeepAliveTimeout,\n\t\t\tDeadline:  time.Now().Add(time.Hour),\n",
 			More: []repl{{"import (\n", "import (\n\t\"time\"\n"}}},
-		mutant{Name: "keep-alives of the transport disabled", File: tr, Expect: "C19.O1",
+		{Name: "keep-alives of the transport disabled", File: tr, Expect: "C19.O1",
 			Old: "\t\tTLSClientConfig: tlscfg,\n", New: "\t\tTLSClientConfig: tlscfg,\n\t\tDisableKeepAlives: cfg.Proxy.MaxConn <= 0,\n"},
-		mutant{Name: "benign: DisableKeepAlives spelled out as false", File: tr, Expect: "",
+		{Name: "benign: DisableKeepAlives spelled out as false", File: tr, Expect: "",
 			Old: "\t\tTLSClientConfig: tlscfg,\n", New: "\t\tTLSClientConfig: tlscfg,\n\t\tDisableKeepAlives: false,\n"},
-		mutant{Name: "total idle connection cap below the per-host limit", File: tr, Expect: "C19.O1",
+		{Name: "total idle connection cap below the per-host limit", File: tr, Expect: "C19.O1",
 			Old: "\t\tTLSClientConfig: tlscfg,\n", New: "\t\tTLSClientConfig: tlscfg,\n\t\tMaxIdleConns: 100,\n"},
-		mutant{Name: "DialTLS through a dialer of its own without the configured limits", File: tr, Expect: "C19.O1",
+		{Name: "DialTLS through a dialer of its own without the configured limits", File: tr, Expect: "C19.O1",
 			Old: "\t\tTLSClientConfig: tlscfg,\n",
 			New: "\t\tTLSClientConfig: tlscfg,\n\t\tDialTLS: func(network, addr string) (net.Conn, error) {\n\t\t\treturn tls.DialWithDialer(&net.Dialer{}, network, addr, tlscfg)\n\t\t},\n"},
-		mutant{Name: "DialTLS with tls.Dial (no dialer at all)", File: tr, Expect: "C19.O1",
+		{Name: "DialTLS with tls.Dial (no dialer at all)", File: tr, Expect: "C19.O1",
 			Old: "\t\tTLSClientConfig: tlscfg,\n",
 			New: "\t\tTLSClientConfig: tlscfg,\n\t\tDialTLS: func(network, addr string) (net.Conn, error) {\n\t\t\treturn tls.Dial(network, addr, tlscfg)\n\t\t},\n"},
-		mutant{Name: "benign: DialTLS through a dialer with the configured limits", File: tr, Expect: "",
+		{Name: "benign: DialTLS through a dialer with the configured limits", File: tr, Expect: "",
 			Old: "\t\tTLSClientConfig: tlscfg,\n",
 			New: "\t\tTLSClientConfig: tlscfg,\n\t\tDialTLS: func(network, addr string) (net.Conn, error) {\n\t\t\td := &net.Dialer{Timeout: cfg.Proxy.DialTimeout, KeepAlive: cfg.Proxy.KeepAliveTimeout}\n\t\t\treturn tls.DialWithDialer(d, network, addr, tlscfg)\n\t\t},\n"},
-		mutant{Name: "benign: DialTLSContext is the method of a tls.Dialer around a dialer with the configured limits", File: tr, Expect: "",
+		{Name: "benign: DialTLSContext is the method of a tls.Dialer around a dialer with the configured limits", File: tr, Expect: "",
 			Old: "\t\tTLSClientConfig: tlscfg,\n",
 			New: "\t\tTLSClientConfig: tlscfg,\n\t\tDialTLSContext: (&tls.Dialer{NetDialer: &net.Dialer{Timeout: cfg.Proxy.DialTimeout, KeepAlive: cfg.Proxy.KeepAliveTimeout}, Config: tlscfg}).DialContext,\n"},
-		mutant{Name: "DialTLSContext is the method of a tls.Dialer without a net dialer", File: tr, Expect: "C19.O1",
+		{Name: "DialTLSContext is the method of a tls.Dialer without a net dialer", File: tr, Expect: "C19.O1",
 			Old: "\t\tTLSClientConfig: tlscfg,\n",
 			New: "\t\tTLSClientConfig: tlscfg,\n\t\tDialTLSContext: (&tls.Dialer{Config: tlscfg}).DialContext,\n"},
-	)
+	})...)
 
 	const ld = "config/load.go"
 	const postOld = "\tif cfg.Registry.Consul.ServiceMonitors <= 0 {\n"
 	const bindOld = "\tf.BoolVar(&cfg.Insecure, \"insecure\","
-	addRound4("C19", "(L1) once the command line, environment and properties file have been parsed into the configuration (the call that reaches flag.FlagSet.Parse), nothing writes the five limit options of config.Proxy (DialTimeout, ResponseHeaderTimeout, KeepAliveTimeout, IdleConnTimeout, MaxConn) of the configuration config.Load returns, of a copy of it or of a variable that holds it - directly, through a pointer to the field handed to a helper, or by replacing the whole Proxy / Config struct with something whose limit fields are not the loaded ones - except under the condition that the operator did not set that very option (FlagSet.IsSet(<its name>) is false); every value of an option is the operator's choice (maxconn -1 switches connection re-use off, a timeout of 0 means none), so a default or clamp applied afterwards builds transports with limits nobody configured.", runC19L1,
-		mutant{Name: "loader replaces maxconn <= 0 with the default (seed 8)", File: ld, Expect: "C19.L1",
+	addRound4("C19", "(L1) once the command line, environment and properties file have been parsed into the configuration (the call that reaches flag.FlagSet.Parse), nothing writes the five limit options of config.Proxy (DialTimeout, ResponseHeaderTimeout, KeepAliveTimeout, IdleConnTimeout, MaxConn) of the configuration config.Load returns, of a copy of it or of a variable that holds it - directly, through a pointer to the field handed to a helper, or by replacing the whole Proxy / Config struct with something whose limit fields are not the loaded ones - except under the condition that the operator did not set that very option (FlagSet.IsSet(<its name>) is false), or when the value written IS what the flag set parsed for that option: read from the destination (a local, a field of an intermediate struct, the pointer f.Int / f.Duration returned) that was registered under the option's name and that nothing but such a guarded default has written or been handed since the parse; every value of an option is the operator's choice (maxconn -1 switches connection re-use off, a timeout of 0 means none), so a default or clamp applied afterwards builds transports with limits nobody configured.", runC19L1, c19devFilter([]mutant{
+		{Name: "loader replaces maxconn <= 0 with the default (seed 8)", File: ld, Expect: "C19.L1",
 			Old: postOld, New: "\tif cfg.Proxy.MaxConn <= 0 {\n\t\tcfg.Proxy.MaxConn = defaultConfig.Proxy.MaxConn\n\t}\n" + postOld},
-		mutant{Name: "loader replaces a zero keep-alive timeout with the default", File: ld, Expect: "C19.L1",
+		{Name: "loader replaces a zero keep-alive timeout with the default", File: ld, Expect: "C19.L1",
 			Old: postOld, New: "\tif cfg.Proxy.KeepAliveTimeout == 0 {\n\t\tcfg.Proxy.KeepAliveTimeout = defaultConfig.Proxy.KeepAliveTimeout\n\t}\n" + postOld},
-		mutant{Name: "benign: default applied only when the operator did not set the option", File: ld, Expect: "",
+		{Name: "benign: default applied only when the operator did not set the option", File: ld, Expect: "",
 			Old: postOld, New: "\tif !f.IsSet(\"proxy.maxconn\") {\n\t\tcfg.Proxy.MaxConn = defaultConfig.Proxy.MaxConn\n\t}\n" + postOld},
-		mutant{Name: "default applied when ANOTHER option was not set", File: ld, Expect: "C19.L1",
+		{Name: "default applied when ANOTHER option was not set", File: ld, Expect: "C19.L1",
 			Old: postOld, New: "\tif !f.IsSet(\"proxy.strategy\") {\n\t\tcfg.Proxy.MaxConn = defaultConfig.Proxy.MaxConn\n\t}\n" + postOld},
-		mutant{Name: "default applied when the option WAS set", File: ld, Expect: "C19.L1",
+		{Name: "default applied when the option WAS set", File: ld, Expect: "C19.L1",
 			Old: postOld, New: "\tif f.IsSet(\"proxy.maxconn\") && cfg.Proxy.MaxConn <= 0 {\n\t\tcfg.Proxy.MaxConn = defaultConfig.Proxy.MaxConn\n\t}\n" + postOld},
-		mutant{Name: "clamp helper writes the option through a pointer", File: ld, Expect: "C19.L1",
+		{Name: "clamp helper writes the option through a pointer", File: ld, Expect: "C19.L1",
 			Old: postOld, New: "\tclampDuration(&cfg.Proxy.ResponseHeaderTimeout, time.Second, time.Minute)\n" + postOld,
 			More: []repl{{"func parseScheme(s string)", "func clampDuration(p *time.Duration, lo, hi time.Duration) {\n\tif *p < lo {\n\t\t*p = lo\n\t}\n\tif *p > hi {\n\t\t*p = hi\n\t}\n}\n\nfunc parseScheme(s string)"}}},
-		mutant{Name: "normalising method of the configuration called after the parse", File: ld, Expect: "C19.L1",
+		{Name: "normalising method of the configuration called after the parse", File: ld, Expect: "C19.L1",
 			Old: postOld, New: "\tcfg.Proxy.sanitize()\n" + postOld,
 			More: []repl{{"func parseScheme(s string)", "func (p *Proxy) sanitize() {\n\tif p.IdleConnTimeout <= 0 {\n\t\tp.IdleConnTimeout = 15 * time.Second\n\t}\n}\n\nfunc parseScheme(s string)"}}},
-		mutant{Name: "whole Proxy section replaced by the defaults after the parse", File: ld, Expect: "C19.L1",
+		{Name: "whole Proxy section replaced by the defaults after the parse", File: ld, Expect: "C19.L1",
 			Old: postOld, New: "\tif cfg.Proxy.MaxConn <= 0 {\n\t\tcfg.Proxy = defaultConfig.Proxy\n\t}\n" + postOld},
-		mutant{Name: "benign: defaults written into the configuration before the options are bound and parsed", File: ld, Expect: "",
+		{Name: "benign: defaults written into the configuration before the options are bound and parsed", File: ld, Expect: "",
 			Old: bindOld, New: "\tcfg.Proxy.MaxConn = defaultConfig.Proxy.MaxConn\n\tcfg.Proxy.DialTimeout = defaultConfig.Proxy.DialTimeout\n" + bindOld},
-		mutant{Name: "benign: whole configuration preset from the defaults before the parse", File: ld, Expect: "",
+		{Name: "benign: whole configuration preset from the defaults before the parse", File: ld, Expect: "",
 			Old: bindOld, New: "\t*cfg = *defaultConfig\n" + bindOld},
-		mutant{Name: "benign: configuration object with preset limits built by a helper before the parse", File: ld, Expect: "",
+		{Name: "benign: configuration object with preset limits built by a helper before the parse", File: ld, Expect: "",
 			Old: "\tcfg = &Config{}\n", New: "\tcfg = newConfig()\n",
 			More: []repl{{"func parseScheme(s string)", "func newConfig() *Config {\n\tc := &Config{}\n\tc.Proxy.MaxConn = defaultConfig.Proxy.MaxConn\n\tc.Proxy.KeepAliveTimeout = defaultConfig.Proxy.KeepAliveTimeout\n\treturn c\n}\n\nfunc parseScheme(s string)"}}},
-		mutant{Name: "benign: nonsensical value rejected instead of replaced", File: ld, Expect: "",
+		{Name: "benign: nonsensical value rejected instead of replaced", File: ld, Expect: "",
 			Old: postOld, New: "\tif cfg.Proxy.MaxConn < -1 {\n\t\treturn nil, fmt.Errorf(\"proxy.maxconn must not be less than -1\")\n\t}\n" + postOld},
-		mutant{Name: "benign: a copy of the proxy section is adjusted for logging only", File: ld, Expect: "",
+		{Name: "benign: a copy of the proxy section is adjusted for logging only", File: ld, Expect: "",
 			Old: postOld, New: "\tshown := cfg.Proxy\n\tif shown.MaxConn <= 0 {\n\t\tshown.MaxConn = defaultConfig.Proxy.MaxConn\n\t}\n\tlog.Printf(\"[DEBUG] proxy.maxconn %d\", shown.MaxConn)\n" + postOld},
-		mutant{Name: "main caps the idle timeout of the loaded configuration before handing it to the transports", File: "main.go", Expect: "C19.L1",
+		{Name: "main caps the idle timeout of the loaded configuration before handing it to the transports", File: "main.go", Expect: "C19.L1",
 			Old: "\ttransport.SetConfig(cfg)\n", New: "\tif cfg.Proxy.IdleConnTimeout > time.Minute {\n\t\tcfg.Proxy.IdleConnTimeout = time.Minute\n\t}\n\ttransport.SetConfig(cfg)\n"},
-		mutant{Name: "the setter stores an adjusted copy of the configuration", File: tr, Expect: "C19.L1",
+		{Name: "the setter stores an adjusted copy of the configuration", File: tr, Expect: "C19.L1",
 			Old: "func SetConfig(c *config.Config) {\n\tcfg = c\n", New: "func SetConfig(c *config.Config) {\n\tcp := *c\n\tif cp.Proxy.MaxConn <= 0 {\n\t\tcp.Proxy.MaxConn = 100\n\t}\n\tcfg = &cp\n"},
-		mutant{Name: "benign: the setter stores an unchanged copy of the configuration", File: tr, Expect: "",
+		{Name: "benign: the setter stores an unchanged copy of the configuration", File: tr, Expect: "",
 			Old: "func SetConfig(c *config.Config) {\n\tcfg = c\n", New: "func SetConfig(c *config.Config) {\n\tcp := *c\n\tcfg = &cp\n"},
-		mutant{Name: "NewTransport adjusts the configuration variable before reading it", File: tr, Expect: "C19.L1",
+		{Name: "NewTransport adjusts the configuration variable before reading it", File: tr, Expect: "C19.L1",
 			Old: retOld, New: "\tif cfg.Proxy.DialTimeout == 0 {\n\t\tcfg.Proxy.DialTimeout = 30 * time.Second\n\t}\n" + retOld,
 			More: []repl{{"import (\n", "import (\n\t\"time\"\n"}}},
-	)
+	})...)
 }
 
 // ---- O1 ---------------------------------------------------------------------------------------------------------------
@@ -598,6 +599,27 @@ func c19hasFlagSet(t types.Type) bool {
 	return false
 }
 
+// isLimitPtrType: *int / *time.Duration, the types of the limit options.
+func isLimitPtrType(t types.Type) bool {
+	p, ok := types.Unalias(t).Underlying().(*types.Pointer)
+	if !ok {
+		return false
+	}
+	s := typeStr(p.Elem())
+	return s == "int" || s == "time.Duration"
+}
+
+// c19numPtrType: a pointer to a number (int, int64, uint, float64, time.Duration ...): what the flag package parses a
+// numeric option into.
+func c19numPtrType(t types.Type) bool {
+	p, ok := types.Unalias(t).Underlying().(*types.Pointer)
+	if !ok {
+		return false
+	}
+	b, ok := p.Elem().Underlying().(*types.Basic)
+	return ok && b.Info()&types.IsNumeric != 0
+}
+
 func runC19L1(c *Ctx) {
 	const rule = "C19.L1"
 	var loadFn *ssa.Function
@@ -797,9 +819,16 @@ func runC19L1(c *Ctx) {
 			}
 		})
 	}
-	// notSet: the instruction executes only when the flag set says the option bound to `field` was not set
-	notSet := func(i ssa.Instruction, field string) bool {
-		raw := factsAt(i.Block())
+	// optMatches: the option name s is the one of the limit field: the name the field was bound under, or - when the
+	// field itself is not bound (the flags are parsed into an intermediate) - the operator-facing name proxy.<field>
+	optMatches := func(s, field string) bool {
+		if optName[field] != "" {
+			return s == optName[field]
+		}
+		return strings.EqualFold(s[strings.LastIndex(s, ".")+1:], field)
+	}
+	// notSetFacts: among the facts is "the flag set says the option bound to `field` was not set"
+	notSetFacts := func(raw []Fact, field string) bool {
 		for _, ft := range append(append([]Fact{}, raw...), c19expand(raw)...) {
 			call, ok := ft.Cond.(*ssa.Call)
 			if !ok || ft.Truth || call.Call.IsInvoke() {
@@ -813,12 +842,190 @@ func runC19L1(c *Ctx) {
 				continue
 			}
 			for _, a := range call.Call.Args[1:] {
-				if s, isS := constString(a); isS && (optName[field] == "" || s == optName[field]) {
+				if s, isS := constString(a); isS && optMatches(s, field) {
 					return true
 				}
 			}
 		}
 		return false
+	}
+	// notSet: the instruction executes only when the flag set says the option bound to `field` was not set
+	notSet := func(i ssa.Instruction, field string) bool { return notSetFacts(factsAt(i.Block()), field) }
+
+	// (3b) the destinations the flag set parses into that are NOT the configuration itself: a local / a field of an
+	// intermediate struct handed to f.IntVar(&dst, "name", ..), or the pointer f.Int("name", ..) returns. Copying such a
+	// destination into the limit field after the parse writes the operator's value, not a replacement for it - as long as
+	// nothing else wrote (or was handed) the destination after the parse.
+	isFlagFn := func(sc *ssa.Function) bool {
+		if sc == nil {
+			return false
+		}
+		if recv := sc.Signature.Recv(); recv != nil {
+			return c19hasFlagSet(recv.Type())
+		}
+		return sc.Pkg != nil && sc.Pkg.Pkg.Path() == "flag"
+	}
+	locKey := func(o c19org) string { return fmt.Sprintf("%p.%s", o.root, strings.Join(o.fields, ".")) }
+	type c19dest struct {
+		name    string // "" when the name is not a constant
+		last    string // last field of the location ("" for a variable of its own)
+		owner   types.Type
+		root    ssa.Value
+		addrUse []ssa.Instruction // what is done with the address of the destination
+	}
+	dests := map[string]*c19dest{}
+	for _, f := range c.AllFns {
+		eachInstr(f, func(i ssa.Instruction) {
+			cc := callCommon(i)
+			if cc == nil || cc.IsInvoke() || !isFlagFn(cc.StaticCallee()) {
+				return
+			}
+			for k, a := range cc.Args {
+				if !c19numPtrType(a.Type()) {
+					continue
+				}
+				if _, isCfg := limitAddr(a); isCfg {
+					continue
+				}
+				name := ""
+				for _, b := range cc.Args[k+1:] {
+					if s, isS := constString(b); isS {
+						name = s
+						break
+					}
+				}
+				for _, o := range afl.origins(a) {
+					switch o.root.(type) {
+					case *ssa.Alloc, *ssa.Global:
+					default:
+						continue
+					}
+					d := &c19dest{name: name, root: o.root}
+					if n := len(o.fields); n > 0 {
+						d.last, d.owner = o.fields[n-1], o.types[n-1]
+					}
+					if old := dests[locKey(o)]; old != nil && old.name != name {
+						d.name = "\x00" // bound under two names: matches none
+					}
+					dests[locKey(o)] = d
+				}
+			}
+		})
+	}
+	if len(dests) > 0 { // the uses of the destinations' addresses
+		for _, f := range c.AllFns {
+			eachInstr(f, func(i ssa.Instruction) {
+				switch x := i.(type) {
+				case *ssa.FieldAddr:
+					name := fieldName(x.X.Type(), x.Field)
+					hit := false
+					for _, d := range dests {
+						hit = hit || d.last == name
+					}
+					if !hit {
+						return
+					}
+					for _, o := range afl.origins(x) {
+						if d := dests[locKey(o)]; d != nil && x.Referrers() != nil {
+							d.addrUse = append(d.addrUse, *x.Referrers()...)
+						}
+					}
+				}
+				for _, op := range i.Operands(nil) {
+					if op == nil || *op == nil {
+						continue
+					}
+					switch (*op).(type) {
+					case *ssa.Alloc, *ssa.Global:
+						if d := dests[fmt.Sprintf("%p.", *op)]; d != nil {
+							d.addrUse = append(d.addrUse, i)
+						}
+					}
+				}
+			})
+		}
+	}
+	// cleanUses: after the parse the location is only read (or written under "the option was not set")
+	cleanUses := func(uses []ssa.Instruction, addrOf func(ssa.Value) bool, field string) bool {
+		for _, u := range uses {
+			switch x := u.(type) {
+			case *ssa.DebugRef:
+				continue
+			case *ssa.UnOp:
+				if x.Op == token.MUL {
+					continue
+				}
+			case *ssa.FieldAddr:
+				continue // the address of a part: judged where that part is a destination of its own
+			case *ssa.Store:
+				if addrOf(x.Addr) && !addrOf(x.Val) && (early(x, 0) || notSet(x, field)) {
+					continue
+				}
+			}
+			if !early(u, 0) {
+				return false
+			}
+		}
+		return true
+	}
+	// parsedOrigin: the origin is what the flag set parsed for the option of `field`
+	parsedOrigin := func(o c19org, field string) bool {
+		if d := dests[locKey(o)]; d != nil {
+			if d.name != "" && !optMatches(d.name, field) {
+				return false
+			}
+			return cleanUses(d.addrUse, func(v ssa.Value) bool {
+				if v == d.root && d.last == "" {
+					return true
+				}
+				fa, ok := v.(*ssa.FieldAddr)
+				return ok && d.last != "" && fieldName(fa.X.Type(), fa.Field) == d.last
+			}, field)
+		}
+		if call, ok := o.root.(*ssa.Call); ok && len(o.fields) == 0 && !call.Call.IsInvoke() && isFlagFn(call.Call.StaticCallee()) && c19numPtrType(call.Type()) {
+			named := false
+			for _, a := range call.Call.Args {
+				if s, isS := constString(a); isS {
+					named = true
+					if !optMatches(s, field) {
+						return false
+					}
+					break
+				}
+			}
+			return named && call.Referrers() != nil && cleanUses(*call.Referrers(), func(v ssa.Value) bool { return v == ssa.Value(call) }, field)
+		}
+		return false
+	}
+	// parsedValue: every origin of v is the parsed value of the option, or a value chosen because the option was not set
+	// (a default put into the destination under !IsSet hides the parsed content of the destination from the origins:
+	// then v must be read from such a destination)
+	parsedValue := func(v ssa.Value, field string) bool {
+		orgs := vfl.origins(v)
+		n := 0
+		for _, o := range orgs {
+			if parsedOrigin(o, field) {
+				n++
+				continue
+			}
+			if !notSetFacts(o.facts, field) {
+				return false
+			}
+		}
+		if n > 0 || len(orgs) == 0 {
+			return n > 0
+		}
+		u, ok := v.(*ssa.UnOp)
+		if !ok || u.Op != token.MUL {
+			return false
+		}
+		locs := afl.origins(u.X)
+		for _, o := range locs {
+			if dests[locKey(o)] == nil || !parsedOrigin(o, field) {
+				return false
+			}
+		}
+		return len(locs) > 0
 	}
 
 	// (4) the writes
@@ -832,8 +1039,8 @@ func runC19L1(c *Ctx) {
 		if opt == "" {
 			opt = "proxy." + strings.ToLower(field)
 		}
-		c.check(rule, fnKey(st.Parent())+"|write of config.Proxy."+field+" after the parse", st.Pos(), field != "" && notSet(st, field),
-			how+" config.Proxy."+field+" of the loaded configuration is written after the operator's value ("+opt+" from command line, environment or properties file) has been parsed into it, and not under the condition that the option was not set: whatever the operator chose there (maxconn -1 = no connection re-use, 0 = Go's default; a timeout of 0 = none) is replaced, and every transport NewTransport builds - default, skip-verify, per-route - gets a limit nobody configured")
+		c.check(rule, fnKey(st.Parent())+"|write of config.Proxy."+field+" after the parse", st.Pos(), field != "" && (notSet(st, field) || parsedValue(st.Val, field)),
+			how+" config.Proxy."+field+" of the loaded configuration is written after the operator's value ("+opt+" from command line, environment or properties file) has been parsed into it - not under the condition that the option was not set, and the value written is not the one the flag set parsed for this option into a destination of its own that was left alone since: whatever the operator chose there (maxconn -1 = no connection re-use, 0 = Go's default; a timeout of 0 = none) is replaced, and every transport NewTransport builds - default, skip-verify, per-route - gets a limit nobody configured")
 	}
 	// carried: the limit field `field` of the struct value v (config.Config or config.Proxy) is the loaded one
 	carried := func(v ssa.Value, rel []string, field string) bool {
@@ -859,20 +1066,16 @@ func runC19L1(c *Ctx) {
 			if _, isA := o.root.(*ssa.Alloc); isA && c19nilParamFact(o.facts) {
 				continue // `if c == nil { c = &config.Config{} }`: a default for a missing configuration
 			}
+			if parsedOrigin(o, field) {
+				n++ // the struct the flag set parsed into
+				continue
+			}
 			if !relevant(o) || len(o.fields) == 0 || o.fields[len(o.fields)-1] != field {
 				return false
 			}
 			n++
 		}
 		return n > 0
-	}
-	isLimitPtr := func(t types.Type) bool {
-		p, ok := types.Unalias(t).Underlying().(*types.Pointer)
-		if !ok {
-			return false
-		}
-		s := typeStr(p.Elem())
-		return s == "int" || s == "time.Duration"
 	}
 	for _, f := range c.AllFns {
 		if !c19nonInit(f) {
@@ -915,7 +1118,7 @@ func runC19L1(c *Ctx) {
 			case *ssa.FieldAddr, *ssa.IndexAddr, *ssa.Alloc, *ssa.Global:
 				return
 			}
-			if !isLimitPtr(st.Addr.Type()) {
+			if !isLimitPtrType(st.Addr.Type()) {
 				return
 			}
 			for _, o := range afl.origins(st.Addr) {
